@@ -134,6 +134,17 @@ def probes():
                        s_dim(False, [[r, [], [1, 0]]]),
                        P(fld(r, 1)), P(b.V('y$'))]))
     # ---- feature probes (expected to agree)
+    # assignments between fields of one record (also r.b = r.b) at every level
+    b = B('record-field-to-field')
+    b.p.types.append(('ft', [('fa', I), ('fb', I), ('fc', I), ('fd', L)]))
+    r = b.p.new_var('q', I)
+    b.p.vrec[r] = len(b.p.types) - 1
+    out.append(b.done([s_dim(False, [[r, [], [1, len(b.p.types) - 1]]]),
+                       s_assign([3, r, 0], int_lit(1)), s_assign([3, r, 1], int_lit(5)),
+                       s_assign([3, r, 2], int_lit(7)), s_assign([3, r, 3], num(L, 70000)),
+                       s_assign([3, r, 1], fld(r, 2)), P(fld(r, 0), 1, fld(r, 1), 1, fld(r, 2)),
+                       s_assign([3, r, 2], fld(r, 0)), s_assign([3, r, 0], fld(r, 0)),
+                       P(fld(r, 0), 1, fld(r, 1), 1, fld(r, 2), 1, fld(r, 3))]))
     b = B('byref-aliasing')
     p = b.p
     n = p.new_var('n%', I)
